@@ -70,9 +70,12 @@ Definition dotdot_slash : str := [ch_dot; ch_dot; ch_slash].
 Definition tries_to_escape (p : str) : bool :=
   let c := clean p in has_prefix dotdot_slash c || str_eqb c dotdot.
 
-(* analysis.pathWithin / pathsOverlap *)
+(* analysis.pathWithin / pathsOverlap.  A cleaned path never starts with "./", so the
+   workspace root "." is its own case: it contains every relative path that does not leave it. *)
 Definition path_within (path dir : str) : bool :=
-  str_eqb path dir || has_prefix (dir ++ slash) path.
+  str_eqb path dir ||
+  (if str_eqb dir dot then negb (is_abs path) && negb (tries_to_escape path)
+   else has_prefix (dir ++ slash) path).
 Definition paths_overlap (a b : str) : bool := path_within a b || path_within b a.
 
 (* analysis.cleanOutputPath: filepath.Clean(filepath.Join(pkg, id)) *)
@@ -96,6 +99,10 @@ Fixpoint resolve_from (st : list str) (cs : list str) : option (list str) :=
       else resolve_from (c :: st) cs'
   end.
 Definition resolve (p : str) : option (list str) := resolve_from [] (split_slash p).
+
+(* the elements of a walk that stayed inside, written the way Clean writes them: "." for none *)
+Definition render_rel (r : list str) : str :=
+  match r with [] => dot | _ :: _ => join slash r end.
 
 (* An absolute location: the walk starts at "/" where ".." stays at "/" (POSIX). *)
 Fixpoint walk_abs (st : list str) (cs : list str) : list str :=
